@@ -1006,6 +1006,9 @@ def run(ctx, only_cases=None):
         return
     import bert_e.workflow.gitwaterflow as gwf
     gwf.setup({})
+    if only_cases is None:
+        from lib import authoropts
+        authoropts.check(ctx, relevant=['bypass_jira_check'])   # bypass 'per-author': several authors in one settings file
     vlit, hlit = live_patterns()
     tripped = (vlit, hlit) != (VFILTER_MODELLED, HF_FILTER_MODELLED)
     if tripped:
